@@ -75,8 +75,7 @@ def claimable (p : Pkg) (threshold : Int) : Bool :=
     returns the number of rows changed -/
 def stmtClaimUpdate (db : Db) (k : Key) (now threshold : Int) : Db × Nat :=
   let n := (db.pkgs.filter fun p => p.key == k && claimable p threshold).length
-  ({ db with pkgs := db.pkgs.map fun p =>
-      if p.key == k && claimable p threshold then { p with fetchingSince := some now } else p }, n)
+  (db.updatePkgs k fun p => if claimable p threshold then { p with fetchingSince := some now } else p, n)
 
 /-- `INSERT OR IGNORE INTO packages (registry_type, package_name, updated_at, fetching_since) VALUES (?1, ?2, ?3, ?4)` -/
 def stmtClaimInsert (db : Db) (k : Key) (now : Int) : Db × Nat :=
